@@ -103,6 +103,9 @@ pub struct BodySpec {
     /// when > 1: the encoded (and damaged) text is repeated this many times (bodies of many megabytes)
     #[serde(default)]
     pub repeat: u16,
+    /// the text (without quotes, backslashes and control characters) is wrapped in double quotes: a JSON string literal
+    #[serde(default)]
+    pub json_string: bool,
 }
 
 #[derive(Debug, Clone, Serialize, Deserialize)]
@@ -120,6 +123,18 @@ pub enum Api {
     TextWith(u8),
     TextUtf8,
     TextReader { with: Option<u8>, buf: u32 },
+    /// json(): the text, decoded like any other, parsed as JSON (the body is then a JSON string literal around the sample text)
+    Json,
+}
+
+const JSON_ERR: &str = "<<json error>>";
+
+/// what json() amounts to: the canonical form of the value the text parses to, or the error marker
+fn json_canon(text: &str) -> String {
+    match serde_json::from_str::<serde_json::Value>(text) {
+        Ok(v) => serde_json::to_string(&v).unwrap_or_else(|_| JSON_ERR.to_string()),
+        Err(_) => JSON_ERR.to_string(),
+    }
 }
 
 #[derive(Debug, Clone, Serialize, Deserialize)]
@@ -200,7 +215,9 @@ impl BodySpec {
         let t = table();
         let enc = t[self.enc as usize % t.len()].0;
         let mut rng = XorShift::new(self.seed as u64 ^ 0xabcdef);
-        let mut b = encode(enc, &sample_text(self.seed, self.chars as usize));
+        let text = sample_text(self.seed, self.chars as usize);
+        let text = if self.json_string { format!("\"{}\"", text.chars().filter(|c| *c != '"' && *c != '\\' && !c.is_control()).collect::<String>()) } else { text };
+        let mut b = encode(enc, &text);
         match self.damage {
             Damage::None => {}
             Damage::Truncate(f) => {
@@ -295,7 +312,7 @@ identical result across segmentations and reader styles (all bodies), never Err.
             return None;
         }
         let big = |enc: u8, api: Api| Case {
-            body: BodySpec { enc, chars: 60_000, seed: 7, damage: Damage::None, bom: 0, repeat: 120 },
+            body: BodySpec { enc, chars: 60_000, seed: 7, damage: Damage::None, bom: 0, repeat: 120, json_string: false },
             ct: ContentType::Absent,
             session_default: None,
             request_default: Some(Some(enc)),
@@ -327,7 +344,7 @@ identical result across segmentations and reader styles (all bodies), never Err.
             ],
             prop_oneof![8 => Just(0u8), 1 => 1u8..4],
         )
-            .prop_map(|(enc, chars, seed, damage, bom)| BodySpec { enc, chars, seed, damage, bom, repeat: 0 });
+            .prop_map(|(enc, chars, seed, damage, bom)| BodySpec { enc, chars, seed, damage, bom, repeat: 0, json_string: false });
         let ct = prop_oneof![
             1 => Just(ContentType::Absent),
             1 => Just(ContentType::NoParam),
@@ -338,6 +355,7 @@ identical result across segmentations and reader styles (all bodies), never Err.
             3 => Just(Api::Text),
             1 => (0..n).prop_map(Api::TextWith),
             1 => Just(Api::TextUtf8),
+            1 => Just(Api::Json),
             4 => (prop_oneof![3 => Just(None), 1 => (0..n).prop_map(Some)], prop_oneof![Just(0u32), Just(1), Just(2), Just(3), Just(5), Just(17), Just(63), Just(64), Just(65), Just(4096), Just(8192), Just(100_000)])
                 .prop_map(|(with, buf)| Api::TextReader { with, buf }),
         ];
@@ -350,8 +368,11 @@ identical result across segmentations and reader styles (all bodies), never Err.
             crate::props::c01::framing_strategy(),
             (proptest::collection::vec(seg(), 1..4), prop_oneof![4 => Just(0u8), 1 => Just(1u8), 1 => Just(2u8)], prop_oneof![4 => Just(vec![]), 1 => proptest::collection::vec(any::<u16>(), 1..3)], prop_oneof![1 => Just(0u8), 2 => 1u8..MEDIA_TYPES.len() as u8], prop_oneof![1 => Just((0u8, 0u8)), 1 => (1u8..64, 1u8..5)]),
         )
-            .prop_map(|(body, ct, session_default, request_default, api, framing, (segs, request_ct, interrupts, media, small_first))| Case {
-                body,
+            .prop_map(|(mut body, ct, session_default, request_default, api, framing, (segs, request_ct, interrupts, media, small_first))| Case {
+                body: {
+                    body.json_string = matches!(api, Api::Json);
+                    body
+                },
                 ct,
                 session_default,
                 request_default,
@@ -397,8 +418,10 @@ identical result across segmentations and reader styles (all bodies), never Err.
             Api::Text | Api::TextReader { with: None, .. } => (Some(model_charset), model_charset.decode_with_bom_removal(&body).0.into_owned()),
             Api::TextWith(e) | Api::TextReader { with: Some(e), .. } => (Some(enc_of(*e)), enc_of(*e).decode_with_bom_removal(&body).0.into_owned()),
             Api::TextUtf8 => (None, String::from_utf8_lossy(&body).into_owned()),
+            Api::Json => (Some(model_charset), json_canon(&model_charset.decode_with_bom_removal(&body).0)),
         };
         let bom = has_bom(&body);
+        ctx.label_if(matches!(case.api, Api::Json), if expected == JSON_ERR { "json():text-is-not-json" } else { "json():text-is-json" });
 
         let mut headers: Vec<(String, Vec<u8>)> = vec![];
         if let Some(v) = &ct_value {
@@ -457,6 +480,10 @@ identical result across segmentations and reader styles (all bodies), never Err.
                 Api::Text => resp.text().map_err(|e| format!("{e:?}")),
                 Api::TextWith(e) => resp.text_with(enc_of(*e)).map_err(|e| format!("{e:?}")),
                 Api::TextUtf8 => resp.text_utf8().map_err(|e| format!("{e:?}")),
+                Api::Json => Ok(match resp.json::<serde_json::Value>() {
+                    Ok(v) => serde_json::to_string(&v).unwrap_or_else(|_| JSON_ERR.to_string()),
+                    Err(_) => JSON_ERR.to_string(),
+                }),
                 Api::TextReader { with, buf } => {
                     let mut r = match with {
                         Some(e) => resp.text_reader_with(enc_of(*e)),
@@ -542,6 +569,7 @@ identical result across segmentations and reader styles (all bodies), never Err.
                     Api::Text => "text",
                     Api::TextWith(_) => "text_with",
                     Api::TextUtf8 => "text_utf8",
+                    Api::Json => "json",
                     Api::TextReader { .. } => "text_reader",
                 };
                 let common = got.chars().zip(expected.chars()).take_while(|(a, b)| a == b).count();
@@ -568,7 +596,7 @@ identical result across segmentations and reader styles (all bodies), never Err.
             Api::TextWith(e) => Some(Api::TextReader { with: Some(*e), buf: 4096 }),
             Api::TextReader { with: None, .. } => Some(Api::Text),
             Api::TextReader { with: Some(e), .. } => Some(Api::TextWith(*e)),
-            Api::TextUtf8 => None,
+            Api::TextUtf8 | Api::Json => None,
         };
         if let (Some(dual), Some(first)) = (dual, results.first()) {
             let mut events = case.segs[0].split(&built.wire, &built.structural);
@@ -600,7 +628,7 @@ identical result across segmentations and reader styles (all bodies), never Err.
                         let mut s = String::new();
                         r.read_to_string(&mut s).map(|_| s).map_err(|e| format!("{e:?}"))
                     }
-                    Api::TextUtf8 => unreachable!(),
+                    Api::TextUtf8 | Api::Json => unreachable!(),
                 };
                 match got {
                     Ok(g) if &g == first => {}
